@@ -96,7 +96,7 @@ pub fn shard_run(prop: &str, tier: &str, seed: u64, replay: Option<&serde_json::
         }
         // C01 under overlap: only AddVersion requests race (incl. the very first requests of a
         // new client): never two accepted on one parent, no accepted version off the chain
-        if prop == "C01" && !(scn.name.starts_with("AV||AV") || scn.name.starts_with("AV;AV||AV")) {
+        if (prop == "C01" || prop == "C02") && !(scn.name.starts_with("AV||AV") || scn.name.starts_with("AV;AV||AV")) {
             continue;
         }
         // C08 under overlap: GetChildVersion(p) overlapping an AddVersion(p) must answer what some
